@@ -392,6 +392,9 @@ func genWire(r *Rand, g GenCfg) Plan {
 			for v := 0; v < 11; v++ {
 				add(XStep{Op: "byz", Tok: t, Field: "cmd", How: "bad_cmd", Val: v})
 			}
+			for v := 12; v < 22; v++ {
+				add(XStep{Op: "byz", Tok: t, Field: "tag", How: "other_tag", Val: v})
+			}
 			for v := 0; v < 12; v++ {
 				add(XStep{Op: "byz", Tok: t, Field: "tag", How: "other_tag", Val: v})
 				add(XStep{Op: "byz", Tok: t, Field: "sp", How: "sp_shape", Val: v + 4*r.Intn(3)})
